@@ -135,6 +135,12 @@ def oracles(rec):
         if op == 'handle' and prev[0] == 'dyn' and prev[1] in states and (o['res'] == 'ok' or o['res'].startswith('errdyn:')):
             if cur[0] != 'dyn' or cur[1] not in states:
                 fail('C19', f'handle returned {o["res"]} but the machine is now {cur[1]}')
+        # ---- C02: the typed method of an event exists on M<s> whenever the relation has an edge from s
+        if op == 'tcall' and prev[0] == 'typed' and o['res'] == 'nosuch' and prev[1] in states:
+            e0, _ = edge_of(info, prev[1], toks[1], 'method')
+            if e0 is not None:
+                fail('C02', f'{prev[1]} --{e0["event"]}--> {e0["target"]} is declared, but the machine typed in {prev[1]} has no '
+                            f'method `{toks[1]}`')
         # ---- transitions
         if op in ('handle', 'tcall') and prev[0] in ('dyn', 'typed') and o['res'] != 'nosuch' and prev[1] in states:
             dyn = op == 'handle'
@@ -348,6 +354,12 @@ def oracles(rec):
                 for st, sp in leaf_data.items():
                     if cur[3].get(st, '-') != prev[3].get(sp['field'], '-'):
                         fail('C10', f'into_dynamic changed data of {st}')
+                # data of an enclosing superstate is readable from every leaf beneath it: it survives the conversion too
+                for sp in info['storage']:
+                    if not sp['leaf'] and (cur[1], sp['state']) in info['substates']:
+                        if cur[3].get(sp['state'], '-') != prev[3].get(sp['field'], '-'):
+                            fail('C10', f'into_dynamic changed the data of superstate {sp["state"]} (machine in {cur[1]}): '
+                                        f'{prev[3].get(sp["field"], "-")} before, {cur[3].get(sp["state"], "-")} after')
         if op == 'default' and o['res'] == 'unit':
             # Default::default() is new(Default::default()): initial state, its data defaulted, nothing else
             if cur[0] != 'dyn' or cur[1] != info.get('initial'):
